@@ -306,14 +306,26 @@ def r08_4_dispatch(ctx):
             return lambda: Sym("opt", methods={"use_frame_pointers": lambda v: v >= 8})
         raise Unknown()
 
+    def mk_builder(methods):
+        # the builder's own constructor decides which fields exist; its methods are interpreted
+        builder = Sym("ast-builder", attrs={})
+        init = ab.methods.get("__init__")
+        if init is not None:
+            run_function(init.node, {"self": builder}, W.oracle(extra), init.fq, permissive=True, setup=W.setup)
+        for nm, fi in ab.methods.items():
+            if nm not in ("__init__", "wrap_handler") and "staticmethod" not in fi.decorators():
+                builder.methods[nm] = (lambda fi: lambda *a, **k: W.me.call_def(fi.node, [builder] + list(a), dict(k), {}))(fi)
+        q.need(builder.attrs.get("methods_with_conds") == [] and builder.attrs.get("bare_calls") == [], f"{ab.fq}.__init__ no longer creates empty methods_with_conds / bare_calls lists")
+        builder.attrs["methods_with_conds"].extend(methods)
+        return builder
+
     cond_noop_call = Rec("call", Rec("name", "$cmp:Eq"), [Rec("call", Rec("attr", Rec("name", "Txn"), "on_completion"), [], {}), Rec("name", "OnComplete.NoOp")], {})
     # scenarios: (bare present?, methods [(sig, cond, name)])
     bare_cond = Rec("call", Rec("name", "Cond"), [[Rec("call", Rec("name", "$cmp:Eq"), [Rec("call", Rec("attr", Rec("name", "Txn"), "on_completion"), [], {}), Rec("name", "OnComplete.NoOp")], {}), Rec("call", Rec("name", "Seq"), [[_handler("bare-noop"), Rec("call", Rec("name", "Approve"), [], {})]], {})]], {})
     bare_cond.tags["stack_frames"] = Sym("frames", methods={"reframe": lambda *a: None})
     for has_bare, nmeth in itertools.product((False, True), (0, 1, 2)):
         methods = [mk_cwm(f"m{i}()void", cond_noop_call if i == 0 else 1, f"m{i}") for i in range(nmeth)]
-        builder = Sym("ast-builder", attrs={"methods_with_conds": methods, "bare_calls": []})
-        builder.methods["program_construction"] = lambda use_frame_pt=False: W.me.call_def(pc.node, [builder], {"use_frame_pt": use_frame_pt}, {})
+        builder = mk_builder(methods)
         bca = Sym("bare-actions", methods={"is_empty": lambda: not has_bare, "approval_construction": lambda: bare_cond})
         selfs = Sym("router", attrs={"bare_call_actions": bca, "approval_ast": builder, "clear_state": "CLEAR"}, methods={"contract_construct": lambda: "CONTRACT"})
         val, _ = run_function(bp.node, {"self": selfs, "version": 8, "optimize": None}, W.oracle(extra), bp.fq, permissive=True, setup=W.setup)
@@ -349,6 +361,23 @@ def r08_4_dispatch(ctx):
             if got != want:
                 problems.append(f"call {call}: runs {got}, expected {want}")
         ctx.check(not problems, "R08.4", construct, "; ".join(problems[:3]), bp.where, fact={"program": prog.text[:200] if isinstance(prog, Rec) else repr(prog)})
+    # history: build, register another method, build again (same convention) - the second program dispatches it
+    for version in (6, 8):
+        builder = mk_builder([mk_cwm("m0()void", 1, "m0")])
+        bca = Sym("bare-actions", methods={"is_empty": lambda: True, "approval_construction": lambda: None})
+        selfs = Sym("router", attrs={"bare_call_actions": bca, "approval_ast": builder, "clear_state": "CLEAR"}, methods={"contract_construct": lambda: "CONTRACT"})
+        first, _ = run_function(bp.node, {"self": selfs, "version": version, "optimize": None}, W.oracle(extra), bp.fq, permissive=True, setup=W.setup)
+        builder.attrs["methods_with_conds"].append(mk_cwm("m1()void", 1, "m1"))
+        second, _ = run_function(bp.node, {"self": selfs, "version": version, "optimize": None}, W.oracle(extra), bp.fq, permissive=True, setup=W.setup)
+        res = []
+        for prog in (first[0], second[0]):
+            trace = []
+            try:
+                W.run(prog, {"oc": 0, "creating": False, "nargs": 1, "selector": "m1()void"}, trace)
+            except Fail:
+                pass
+            res.append(",".join(trace) or "fail")
+        ctx.check(res == ["fail", "handler:m1"], "R08.4", f"dispatch[build, register m1, build again; version {version}]", f"a call of m1 runs {res[0]} in the first program and {res[1]} in the second; expected fail, then handler:m1 (the contract of the second build lists m1)", bp.where, fact={"runs": res})
     # add_method_to_ast drops a 0 condition and nothing else
     ama = ab.methods["add_method_to_ast"]
     for cond, want in ((0, 0), (1, 1), (cond_noop_call, 1)):
@@ -404,12 +433,71 @@ def r08_6_enum_tables(ctx):
     ctx.require_min("R08.6", 8)
 
 
+def r08_7_method_decorator(ctx):
+    ctx.rule("R08.7", "Router.method registers what its OnCompletion keywords say: no keyword at all means no_op=CALL; otherwise every keyword given (CallConfig.NEVER included - it is a value, not an omission) is passed on and every omitted one is NEVER; a clear_state keyword is refused - over all assignments of {omitted, NEVER, CALL, CREATE, ALL} to the keywords")
+    W = RouterWorld(ctx)
+    rc = ctx.model.find_class("Router", "pyteal.ast.router")
+    f = q.need(rc.methods.get("method"), "Router.method vanished")
+    ctx.analysed(f.fq)
+    fields = ["no_op", "opt_in", "close_out", "update_application", "delete_application"]
+    choices = [None] + CC_NAMES
+    combos = list(itertools.product(choices, repeat=5)) if ctx.tier != "quick" else [c for c in itertools.product(choices, repeat=5) if sum(x is not None for x in c) <= 2 or all(x in (None, "NEVER", "ALL") for x in c)]
+    bad = 0
+    for combo in combos:
+        given = {k: v for k, v in zip(fields, combo) if v is not None}
+        recorded = {}
+
+        def add(sub, name=None, cfg=None, descr=None):
+            recorded["cfg"] = cfg
+            return sub
+
+        selfs = Sym("router", methods={"add_method_handler": add})
+        args = {"self": selfs, "func": Sym("user-function", attrs={"__name__": "f"}), "name": None, "description": None, "clear_state": None}
+        for k in fields:
+            args[k] = W.cc(given[k]) if k in given else None
+        construct = "Router.method[" + (",".join(f"{k}={v}" for k, v in given.items()) or "no keywords") + "]"
+        try:
+            run_function(f.node, args, W.oracle(), f.fq, permissive=True, setup=W.setup)
+        except Raised as r:
+            bad += 1
+            if bad <= 5:
+                ctx.bad("R08.7", construct, f"raises {r.exc_text[:60]}", f.where)
+            continue
+        cfg = recorded.get("cfg")
+        q.need(isinstance(cfg, Rec) and cfg.is_call("MethodConfig"), f"{f.fq}: add_method_handler is not given a MethodConfig(...) (got {cfg!r})")
+        got = {k: (v.attrs["name"] if isinstance(v, Sym) else repr(v)) for k, v in cfg.kwargs.items()}
+        got = {k: v for k, v in got.items() if v != "NEVER"}
+        want = {"no_op": "CALL"} if not given else {k: v for k, v in given.items() if v != "NEVER"}
+        if got != want:
+            bad += 1
+            if bad <= 5:
+                ctx.bad("R08.7", construct, f"registers {got or 'nothing (all NEVER)'}; the keywords say {want or 'nothing (all NEVER)'}", f.where)
+        else:
+            ctx.ok("R08.7", construct, {"registered": got}, f.where)
+    # clear_state keyword refused
+    for name in CC_NAMES:
+        args = {"self": Sym("router", methods={"add_method_handler": lambda *a, **k: None}), "func": Sym("user-function"), "name": None, "description": None, "clear_state": W.cc(name)}
+        for k in fields:
+            args[k] = None
+        try:
+            run_function(f.node, args, W.oracle(), f.fq, permissive=True, setup=W.setup)
+            out = "accepted"
+        except Raised as r:
+            out = "refused"
+        ctx.check(out == "refused", "R08.7", f"Router.method[clear_state={name}]", f"a clear_state keyword is {out}", f.where, fact={})
+    ctx.require_min("R08.7", 100)
+
+
 def run(ctx):
     r08_1_method_config(ctx)
     r08_2_bare_calls(ctx)
     r08_4_dispatch(ctx)
     r08_5_registration(ctx)
+    r08_7_method_decorator(ctx)
     r08_6_enum_tables(ctx)
+    from rules import c12 as _c12
+
+    _c12.r12_2b_named_ints(ctx)  # OnCompletion names keep their AVM numbers when constants are assembled (shared with C12)
     return (
         "Abstract evaluation of the router's construction code (MethodConfig.approval_cond, BareCallActions.approval_construction, wrap_handler, to_cond_node, "
         "program_construction, _build_program) on symbolic handlers; the constructed condition/dispatch trees are interpreted by a small reference semantics of Cond/Seq/Assert "
